@@ -98,8 +98,8 @@ CHECKS = {
     ),
     "C17": dict(
         title="Vote-collected actions fire exactly at 2/3+1 distinct Alphabet votes",
-        quick=dict(groups=[G("stateful", "^TestC17Stateful$", 150, 8), E("exhaustive", "^TestC17Exhaustive$", 8, env=dict(VERIF_C17_MAXLEN=4)), E("alphabet-resize", "^TestC17AlphabetResize$", 4), E("interplay", "^TestC17Interplay$", 4), E("witness-scopes", "^TestC17WitnessScopes$", 2)]),
-        thorough=dict(groups=[G("stateful", "^TestC17Stateful$", 3000, 16), E("exhaustive", "^TestC17Exhaustive$", 16, env=dict(VERIF_C17_MAXLEN=5)), E("alphabet-resize", "^TestC17AlphabetResize$", 4), E("interplay", "^TestC17Interplay$", 4), E("witness-scopes", "^TestC17WitnessScopes$", 2)]),
+        quick=dict(groups=[G("stateful", "^TestC17Stateful$", 150, 8), E("exhaustive", "^TestC17Exhaustive$", 8, env=dict(VERIF_C17_MAXLEN=4)), E("alphabet-resize", "^TestC17AlphabetResize$", 4), E("interplay", "^TestC17Interplay$", 4), E("witness-scopes", "^TestC17WitnessScopes$", 2), E("unfunded-cheque", "^TestC17UnfundedCheque$", 4)]),
+        thorough=dict(groups=[G("stateful", "^TestC17Stateful$", 3000, 16), E("exhaustive", "^TestC17Exhaustive$", 16, env=dict(VERIF_C17_MAXLEN=5)), E("alphabet-resize", "^TestC17AlphabetResize$", 4), E("interplay", "^TestC17Interplay$", 4), E("witness-scopes", "^TestC17WitnessScopes$", 2), E("unfunded-cheque", "^TestC17UnfundedCheque$", 4)]),
     ),
     "C19": dict(
         title="GAS handled by the governance contracts is accounted exactly",
